@@ -85,7 +85,7 @@ POOL = ["ret", "nop", "push rax", "clc", "nop2", "xor eax, eax", "push r8", "add
         "add qword [rax+rcx*4+0x12345], 0x12345678", "add qword [eax+ecx*4+0x12345], 0x12345678", "mov qword [eax+ecx*4+0x12345], 0x12345678",
         "mov qword [r8d+r9d*4+0x12345], 0x12345678", "imul r8, [r8d+r9d*4+0x12345], 0x12345678", "add qword [r8d+r9d*4+0x12345], 0x12345678",
         "vpaddb ymm1, ymm2, ymm3", "vperm2i128 ymm1, ymm2, [rax+rcx*4+0x12345], 0x5", "paddb xmm1, xmm2", "mulx r8, r9, [rsi]", "cmovne rax, r11",
-        "shl rax, 0x5", "movq xmm1, rax", "mov cx, 0x12", "test bx, 0x7f", "mov word [rdi], 0x5", "add r9w, 0x1234", "jmp 0x4", "jne -0x1000", "call rax", "push 0x5", "call 0x100", "jmp long 0x10", "jne 0x10", "jrcxz 0x5", "xbegin 0x10", "jmp [rax]", "imul rax, rcx, 0x5", "setc al", "bzhi rax, rcx, rdx",
+        "shl rax, 0x5", "movq xmm1, rax", "vmovdqu [rdi], ymm0", "vmovupd xmm1, [rax]", "rorx rax, rcx, 0x5", "vpaddd ymm0, ymm5, ymm2", "sarx r8, r9, r10", "mov cx, 0x12", "test bx, 0x7f", "mov word [rdi], 0x5", "add r9w, 0x1234", "jmp 0x4", "jne -0x1000", "call rax", "push 0x5", "call 0x100", "jmp long 0x10", "jne 0x10", "jrcxz 0x5", "xbegin 0x10", "jmp [rax]", "imul rax, rcx, 0x5", "setc al", "bzhi rax, rcx, rdx",
         # literals beyond 64 bits (accepted and clamped by the library: whatever they do, they must not influence later lines or calls)
         "add rcx, 0x1ffffffffffffffff", "push 99999999999999999999999", "mov rax, [rbx+0x10000000000000000]",
         # displacements wider than 32 bits (accepted and truncated by the library: whatever they do, no write may leave the buffer)
@@ -1167,6 +1167,8 @@ def c09_settings(L, rnd, tier):
                 for second in ("asm", "count"):
                     sc = Script("C09-g%d" % n); n += 1
                     sc.create(1, kind, 600 if kind == "ext" else 0)
+                    if kind == "int" and second == "asm":
+                        sc.blockgrow(1)          # (a growth inside a listed call moves the buffer)
                     sc.lines.append("G 1 1"); sc.meta.append({})
                     sc.chunk(1, c)
                     sc.offset(1, off)
@@ -1595,6 +1597,16 @@ def c19_scripts(L, rnd, tier):
         sc.dropuid()
         sc.asm_file(1, [L.bylen[3][0], L.bylen[1][0]], pub, count=cnt, twin=False)
         out.append(sc)
+    # a process whose real and effective user differ (a set-uid program): what counts for reading a file is the effective one
+    priv = os.path.join(d, "priv0600.asm")
+    open(priv, "w").write(L.text[L.bylen[3][0]] + "\n")
+    os.chmod(priv, 0o600)
+    for cnt in (None, 8):
+        sc = Script("C19-euid%d" % n); n += 1
+        sc.create(1, "ext", 200)
+        sc.lines.append("J 2"); sc.meta.append({})
+        sc.asm_file(1, [L.bylen[3][0]], priv, count=cnt, twin=False)
+        out.append(sc)
     # failing file calls must not use up descriptors: with a limit of 40, sixty failing calls of each kind, then a good file
     for badpath in (d, os.path.join(d, "does-not-exist.asm"), "/proc", longbad):
         sc = Script("C19-fd%d" % n); n += 1
@@ -1651,6 +1663,14 @@ def c17_scenarios(L, rnd):
         sc.asm(1, small, [L.text[k] for k in small])
         sc.binfile(1, os.path.join(d, "g-%s.bin" % mode))
         sc.destroy(1)
+    # chunk fitting where the room check BEHIND the padding is the one that has to grow the buffer (chunk size 11, instruction at 6000)
+    k11 = L.bylen[11][0] if L.bylen.get(11) else big
+    k10 = (L.bylen.get(10) or L.bylen[7])[0]
+    sc = S("grow-fit11"); sc.create(1, "int", 0); sc.chunk(1, 11)
+    body = [k11] * (6000 // 11) + [one] * (6000 % 11)
+    sc.asm(1, body + [k10, small[0]], [L.text[k] for k in body + [k10, small[0]]])
+    sc.asm(1, small, [L.text[k] for k in small])
+    sc.destroy(1)
     for cnt in (None, 8):
         sc = S("file-" + ("count" if cnt else "plain")); sc.create(1, "int", 0)
         sc.asm(1, small, [L.text[k] for k in small])
